@@ -71,6 +71,27 @@ Lemma tie_monoint_0 : fam exact1 d_monoint_0 (fun K => monomial_integral K 0) = 
 Lemma tie_monoint_1 : fam exact1 d_monoint_1 (fun K => monomial_integral K 1) = true. Proof. vm_cast_no_check (eq_refl true). Qed.
 Lemma tie_monoint_2 : fam exact1 d_monoint_2 (fun K => monomial_integral K 2) = true. Proof. vm_cast_no_check (eq_refl true). Qed.
 Lemma tie_monoint_3 : fam exact1 d_monoint_3 (fun K => monomial_integral K 3) = true. Proof. vm_cast_no_check (eq_refl true). Qed.
+Lemma tie_monoint_4 : fam exact1 d_monoint_4 (fun K => monomial_integral K 4) = true. Proof. vm_cast_no_check (eq_refl true). Qed.
+Lemma tie_monoint_5 : fam exact1 d_monoint_5 (fun K => monomial_integral K 5) = true. Proof. vm_cast_no_check (eq_refl true). Qed.
+Lemma tie_monoint_6 : fam exact1 d_monoint_6 (fun K => monomial_integral K 6) = true. Proof. vm_cast_no_check (eq_refl true). Qed.
+Lemma tie_monoint_7 : fam exact1 d_monoint_7 (fun K => monomial_integral K 7) = true. Proof. vm_cast_no_check (eq_refl true). Qed.
+Lemma tie_monoint_8 : fam exact1 d_monoint_8 (fun K => monomial_integral K 8) = true. Proof. vm_cast_no_check (eq_refl true). Qed.
+Lemma tie_monoint_9 : fam exact1 d_monoint_9 (fun K => monomial_integral K 9) = true. Proof. vm_cast_no_check (eq_refl true). Qed.
+Lemma tie_monoint_10 : fam exact1 d_monoint_10 (fun K => monomial_integral K 10) = true. Proof. vm_cast_no_check (eq_refl true). Qed.
+Lemma tie_monoint_11 : fam exact1 d_monoint_11 (fun K => monomial_integral K 11) = true. Proof. vm_cast_no_check (eq_refl true). Qed.
+(* all derivative orders 4..11 (incl. the entries whose integer prefactor exceeds 2^32) *)
+Theorem monoint_high_matches_code :
+  fam exact1 d_monoint_4 (fun K => monomial_integral K 4) = true /\
+  fam exact1 d_monoint_5 (fun K => monomial_integral K 5) = true /\
+  fam exact1 d_monoint_6 (fun K => monomial_integral K 6) = true /\
+  fam exact1 d_monoint_7 (fun K => monomial_integral K 7) = true /\
+  fam exact1 d_monoint_8 (fun K => monomial_integral K 8) = true /\
+  fam exact1 d_monoint_9 (fun K => monomial_integral K 9) = true /\
+  fam exact1 d_monoint_10 (fun K => monomial_integral K 10) = true /\
+  fam exact1 d_monoint_11 (fun K => monomial_integral K 11) = true.
+Proof.
+  exact (conj tie_monoint_4 (conj tie_monoint_5 (conj tie_monoint_6 (conj tie_monoint_7 (conj tie_monoint_8 (conj tie_monoint_9 (conj tie_monoint_10 tie_monoint_11))))))).
+Qed.
 Lemma tie_lagrange : fam exact1 d_lagrange_q (fun K => lagrange_basis K (nodes_quad K)) = true. Proof. vm_cast_no_check (eq_refl true). Qed.
 
 Theorem basis_matches_code :
